@@ -243,4 +243,9 @@ def r033(eng, rep, t: JTemplate) -> None:
     rep.floor("R03.3", "enum width expressions in the template", len(widths), 2)
     for w in widths:
         rep.check(w.strip() == "enum.get_packed_size()", "R03.3", t.relpath, "enum block", "{{%s}}" % w.strip(), "canonical enum width", "enum width in the generated C++ is '%s', not enum.get_packed_size(): encoder, decoder or GetSize disagree with the canonical width" % w.strip())
+    ut = re.search(r"using\s+UnderlyingType\s*=\s*([^;]*);", block)
+    if ut:
+        e = ut.group(1)
+        rep.check("get_packed_size()" in e, "R03.3", t.relpath, "enum block", "using UnderlyingType = %s" % e.strip(), "carrier derives from the packed size",
+                  "the enum's carrier type is the constant %s while its width (get_packed_size) is unbounded: enumerator values that do not fit the carrier are truncated" % e.strip())
     rep.check("GetWord(GetSize()" in block.replace(" ", ""), "R03.3", t.relpath, "enum block", "Decode reads GetSize() bits", "decoder width is the same expression as GetSize", "enum Decode does not read GetSize() bits")
